@@ -75,6 +75,35 @@ pub fn run(out: &mut Out, seed: u64, tier: &str) {
             }
         }
     }
+    // "the same optimised structure": each molecule — and a compressed copy of it, which rarely converges within the budget, so
+    // that differences in the last bits of the gradient are amplified — is built and optimised several times in this process
+    // (every construction draws fresh hash keys); the results must agree to the written precision, 1e-6 A
+    let mut n_opt_pairs = 0usize;
+    for (k, m) in mols.iter().enumerate() {
+        if m.n() > 12 || m.n() < 2 || m.min_distance() < 0.6 { continue; }
+        if tier != "thorough" && k % 3 != 0 { continue; }
+        let squeezed = { let mut c = m.clone(); for p in c.xs.iter_mut() { for q in 0..3 { p[q] *= 0.8; } } c };
+        for start in [m.clone(), squeezed] {
+            if start.min_distance() < 0.5 { continue; }
+            let mut firstx: Option<Vec<[f64; 3]>> = None;
+            for r in 0..(if tier == "thorough" { 6 } else { 3 }) {
+                let res = match crate::s_opt::optimise_checked(&start, "uff") { Some(x) => x, None => break };
+                if !res.xf.iter().all(|p| p.iter().all(|v| v.is_finite())) { break; }
+                match &firstx {
+                    None => firstx = Some(res.xf.clone()),
+                    Some(f) => {
+                        n_opt_pairs += 1;
+                        let worst = f.iter().zip(res.xf.iter()).map(|(a, b)| (0..3).map(|c| (a[c] - b[c]).abs()).fold(0.0f64, f64::max)).fold(0.0f64, f64::max);
+                        if worst > 1.0000001e-6 {
+                            out.oracle_fail(&format!("the optimised structure differs between two constructions of the same input in one process (repeat {}: up to {:.3e} A)", r, worst), &start.xyz_text());
+                            break;
+                        }
+                    }
+                }
+            }
+        }
+    }
+    out.stat("in_process_optimisation_pairs_compared", n_opt_pairs);
     // separate runs of the command-line tool: the same atoms, coordinates equal to the written precision (1e-6 A; the
     // property does not promise identical bytes: `-0.000000` and `0.000000`, or a last digit on a rounding boundary, may differ)
     let n_cli = if tier == "thorough" { 12 } else { 4 };
